@@ -161,7 +161,87 @@ func c12Check(c *explore.Ctx, base *explore.Base, sc *explore.Scenario, memo map
 	}
 }
 
+// c12Sequential: no concurrency - after every Backup of every word the opened backup must hold exactly the
+// model. Bases E/S2: every backup goes to a fresh directory. Base EM2: every backup goes to the directory
+// "bak", which already holds an older backup whose only segment file has the name the restarted log uses again.
+func c12Sequential(c *explore.Ctx) {
+	type sp struct {
+		base, cfg string
+		depth     int
+		fixed     string
+	}
+	spaces := []sp{{"E", "ROLL", 3, ""}, {"S2", "ROLL", 2, ""}, {"S2", "ROLL1", 2, ""}, {"EM2", "ROLL", 3, "bak"}}
+	if c.Thorough() {
+		spaces = []sp{{"E", "ROLL", 5, ""}, {"S2", "ROLL", 4, ""}, {"S2", "ROLL1", 3, ""}, {"EM2", "ROLL", 5, "bak"}, {"E", "ROLL1", 4, ""}, {"S4", "ROLL", 3, ""}}
+	}
+	for _, x := range spaces {
+		if c.Expired() || c.NViolations() > 0 {
+			return
+		}
+		base, err := explore.GetBase(x.base, cfgByName(x.cfg), 0)
+		if err != nil {
+			c.HarnessError("%v", err)
+		}
+		explore.PinSeed(0)
+		letters := []explore.Op{{Kind: explore.Backup}, {Kind: explore.Put, Key: "a"}, {Kind: explore.Put, Key: "b"}, {Kind: explore.Delete, Key: "a"}, {Kind: explore.Delete, Key: "b"}, {Kind: explore.Compact}, {Kind: explore.Reopen}}
+		x := x
+		enumWords(c, letters, x.depth, func(word []explore.Op, checkFrom int) bool {
+			if c.Expired() {
+				return false
+			}
+			s := base.NewSess()
+			s.FixedBackupDir = x.fixed
+			mk := func(w []explore.Op, msg string) bool {
+				return !c.Violation(explore.Violation{
+					Key:    fmt.Sprintf("seq base=%s cfg=%s word=%s", x.base, x.cfg, explore.WordString(w)),
+					What:   fmt.Sprintf("base %s/%s, [%s] (no concurrency; backups go to %s): %s", x.base, x.cfg, explore.WordString(w), map[bool]string{true: "one directory that already holds an older backup", false: "a fresh directory each"}[x.fixed != ""], msg),
+					Size:   len(w),
+					Replay: map[string]interface{}{"kind": "seq12", "base": x.base, "cfg": x.cfg, "word": opsJSON(w), "fixed_dir": x.fixed, "observed": msg},
+				})
+			}
+			if err := s.OpenDB(); err != nil {
+				return mk(nil, "Open: "+err.Error())
+			}
+			defer func() {
+				if s.DB != nil {
+					_ = s.DB.Close()
+				}
+			}()
+			c.Add("executions", 1)
+			c.Add("sequential_words", 1)
+			for i, o := range word {
+				err := s.Apply(o)
+				c.Add("transitions", 1)
+				if o.Kind != explore.Backup || i+1 < checkFrom {
+					continue
+				}
+				w := word[:i+1]
+				if err != nil {
+					return mk(w, "Backup returned error: "+err.Error())
+				}
+				img := s.FS.SubImage(s.LastBackup, explore.DBPath)
+				c.Distinct("backup_image", explore.Hash64(x.base, x.cfg, img.Hash()))
+				rec := explore.RecoverImage(img, base.Cfg, base.Keys, base.Probe, base.Seed, explore.RecoverOpts{})
+				c.Add("backups_opened", 1)
+				switch {
+				case rec.OpenErr != "":
+					return mk(w, "Open of the backup failed: "+rec.OpenErr)
+				case rec.Internal != "":
+					return mk(w, "the opened backup is inconsistent: "+rec.Internal)
+				case !s.Model.Equal(rec.Contents):
+					return mk(w, "the opened backup does not hold the contents the database had when Backup was called: "+s.Model.Diff(rec.Contents, s.KeyName))
+				}
+			}
+			return true
+		})
+	}
+}
+
 func runC12(c *explore.Ctx) {
+	c12Sequential(c)
+	if c.Expired() || c.NViolations() > 0 {
+		return
+	}
 	memos := map[string]map[string]*explore.Recovered{}
 	runScenarioSet(c, c12Scenarios(c.Thorough()), func(base *explore.Base, sc *explore.Scenario) func(r *explore.ConcRun) (string, string) {
 		k := sc.Base + "/" + sc.Cfg
